@@ -7,6 +7,7 @@ from . import shadow as S
 
 _OTHERS = []
 _N = [0]
+USER_ROUTE = [False]     # replays take the route through the caller's own parser (it shows everything the other routes show)
 
 
 def _fresh_parse(text):
@@ -28,6 +29,24 @@ def _fresh_parse(text):
         _OTHERS.append(q)
     p = ExpressionParser()
     _N[0] += 1
+    if _N[0] % 3 == 0 or USER_ROUTE[0]:
+        # ... or by the parser the caller already has: a stock parser that lives through the whole check, asked for
+        # the tokens of the text first (a caller's own look at them: the list is consumed and edited), then to parse it
+        if len(_OTHERS) < 2:
+            _OTHERS.append(ExpressionParser())
+        user = _OTHERS[1]
+        t = getattr(ExpressionParser.tokenize, "__vmon_original__", ExpressionParser.tokenize)
+        try:
+            toks = t(user, text)
+            if toks:
+                toks.pop(0)
+                toks.reverse()
+                del toks[len(toks) // 2:]
+        except Exception:
+            pass
+        if len(getattr(user, "_parse_cache", {})) > 4000:
+            user.clear_cache()
+        return f(user, text)
     if _N[0] % 2:
         t = getattr(type(_OTHERS[0]).tokenize, "__vmon_original__", type(_OTHERS[0]).tokenize)
         try:
